@@ -1,6 +1,7 @@
 package cli
 
 import (
+	"os"
 	"encoding/json"
 	"fmt"
 	"sort"
@@ -316,6 +317,9 @@ func (s *c17w) tableExplained() bool {
 	if len(unc) > 10 {
 		unc = unc[:10]
 	}
+	if os.Getenv("C17_STRICT") != "" {
+		unc = nil
+	}
 	for mask := 0; mask < 1<<len(unc); mask++ {
 		skip := map[*cmd]bool{}
 		for i, c := range unc {
@@ -605,8 +609,12 @@ func runC17(r *report.Report) {
 	if r.Tier == "thorough" {
 		rb = 3
 	}
-	for _, third := range []string{"none", "drop", "stop", "stop-clear", "stop+drop", "stop-clear+drop"} {
+	for _, third := range []string{"none", "drop", "stop", "stop-clear", "stop+drop", "stop-clear+drop", "stop+start", "stop-clear+start"} {
 		js, _ := json.Marshal(c17race{Third: third})
+		rb := rb
+		if strings.Contains(third, "+") && r.Tier != "thorough" {
+			rb = 1 // two third parties: one deviation in the quick tier
+		}
 		st := explore.Explore(explore.Config{Harness: "C17.race", Params: string(js), Bound: rb, Workers: report.Workers(), Deadline: r.Deadline()})
 		r.AddExploration("race-"+third, "schedule", fmt.Sprintf("two service commands (each subscribe / publish QoS 1 / unsubscribe) issued while online, an autonomous broker thread that answers at once, third party: %s; every schedule within delay bound %d, then timeouts pass and (after a Stop) the service is started again", third, rb), st,
 			"one execution = one schedule; calls and Stop return, futures complete (none) / resolve (Stop(true)) / publishes survive, commands reach the broker in issue order and are not lost; non-trivial = executions", "raced")
